@@ -229,6 +229,9 @@ func TestVerifC02(t *testing.T) {
 		}
 	}
 
+	// the register opcodes against the name-based opcodes they stand for (and against the model's store)
+	c02RegisterBoundary(verifh.Rand(22), verifh.N(3000, 60000), cases, fails, stats)
+
 	// the optimizer's fast constant arithmetic against the model's tryConstArith
 	ops := map[string]Opcode{"add": Add, "sub": Sub, "mul": Mul, "div": Div}
 
